@@ -24,7 +24,7 @@ func runC17(r *Run) {
 	defer importProcessLocal(r, "RM", "x/feemarket")
 	P := r.P
 	const fk = "x/feemarket/keeper"
-	r.Rule("R1", "OWN: SetBaseFee ← BeginBlock; SetBlockGasWanted ← EndBlock, InitGenesis; AddTransientGasWanted ← GasWantedDecorator (through the FeeMarketKeeper interface); SetTransientBlockGasWanted ← AddTransientGasWanted; feemarket SetParams ← SetBaseFee, InitGenesis, UpdateParams (authority-guarded), migrations; CalculateBaseFee calls no store writer")
+	r.Rule("R1", "OWN: SetBaseFee ← BeginBlock; SetBlockGasWanted ← EndBlock, InitGenesis; AddTransientGasWanted ← GasWantedDecorator (through the FeeMarketKeeper interface); SetTransientBlockGasWanted ← AddTransientGasWanted; feemarket SetParams ← SetBaseFee, InitGenesis, UpdateParams (authority-guarded), migrations, the zero-height export (R12); CalculateBaseFee calls no store writer")
 	r.Rule("R2", "FLOW: BeginBlock passes CalculateBaseFee's result unchanged to SetBaseFee; EndBlock's stored figure is MaxDec(NewDec(transient gas wanted) × MinGasMultiplier, NewDec(block gas consumed)) through conversions only; CalculateBaseFee's non-nil results depend on BaseFee, GetBlockGasWanted, MaxGas, ElasticityMultiplier, BaseFeeChangeDenominator (and MinGasPrice on the decreasing branch)")
 	r.Rule("R3", "SHAPE: equal → copy of the parent base fee; above target → Add(parent, BigMax(delta, 1)); below target → BigMax(Sub(parent, delta), MinGasPrice)")
 
@@ -33,7 +33,7 @@ func runC17(r *Run) {
 		"SetBlockGasWanted":          {"(*" + fk + ".Keeper).EndBlock": "per-block gas figure", "x/feemarket.InitGenesis": "genesis"},
 		"SetTransientBlockGasWanted": {"(" + fk + ".Keeper).AddTransientGasWanted": "accumulator"},
 		"AddTransientGasWanted":      {"(app/ante/evm.GasWantedDecorator).AnteHandle": "per-tx gas wanted"},
-		"SetParams":                  {"(" + fk + ".Keeper).SetBaseFee": "base fee lives in params", "x/feemarket.InitGenesis": "genesis", "(*" + fk + ".Keeper).UpdateParams": "authority-guarded"},
+		"SetParams":                  {"(" + fk + ".Keeper).SetBaseFee": "base fee lives in params", "x/feemarket.InitGenesis": "genesis", "(*" + fk + ".Keeper).UpdateParams": "authority-guarded", "(*app.Haqq).prepForZeroHeightGenesis": "zero-height export rebases EnableHeight (R12); export tooling, outside block processing"},
 	}
 	n := 0
 	for _, fn := range P.Funcs {
@@ -618,6 +618,36 @@ func runC17(r *Run) {
 					"CalculateBaseFee divides by the gas target (block.max_gas / ElasticityMultiplier) on a path on which it can be zero: block.max_gas = 0 (accepted by CometBFT and x/consensus, read as 'unlimited' by baseapp) or any value below the elasticity multiplier makes the BeginBlock after the first block that uses gas panic with a division by zero on every node", P.witness(w)...)
 			})
 			r.Floor("R9", "divisions by the gas target", nDiv, 2)
+		}
+	}
+	r.Rule("R12", "FLOW.height-valued-parameters-are-rebased-by-the-zero-height-export: the fee market's EnableHeight is a height of the running chain (below it CalculateBaseFee returns nil and the declared-gas counter is not kept: the base fee is charged but never adjusted); a chain started from a zero-height export counts from 1 again, so the zero-height preparation stores a new EnableHeight and writes the fee market parameters back (SetParams) — otherwise the restarted chain freezes its base fee until it reaches the old height")
+	{
+		var prep *ssa.Function
+		for _, fn := range P.Funcs {
+			if fn.Name() == "prepForZeroHeightGenesis" && isHaqqPath(fnPkgPath(fn)) && fn.Parent() == nil && fn.Synthetic == "" {
+				prep = fn
+			}
+		}
+		if prep == nil {
+			r.Bad("R12", "anchor/prepForZeroHeightGenesis", "", "not found")
+		} else {
+			stores, writesBack := false, false
+			for _, g := range withAnon(prep) {
+				eachInstr(g, func(in ssa.Instruction) {
+					if st, ok := in.(*ssa.Store); ok {
+						if sn, f, ok := fieldOfAddr(st.Addr); ok && sn == "Params" && f == "EnableHeight" {
+							stores = true
+						}
+					}
+				})
+				eachCall(g, func(ci CallInfo) {
+					if ci.Name == "SetParams" && pathHasSuffix(ci.PkgPath, "x/feemarket/keeper") {
+						writesBack = true
+					}
+				})
+			}
+			r.Check(stores && writesBack, "R12", fnID(prep)+"#enable-height-rebased", P.Pos(fnPos(prep)), "EnableHeight is stored anew and the fee market parameters are written back",
+				"the zero-height export leaves the fee market's EnableHeight as it is: EnableHeight = 5, export at height 11 with the fee decaying 12.5 % per empty block — the chain started from the export shows 'base fee enabled false' at heights 2–4 and 512908936, 512908936, 512908936 where 448795319, 392695905, 343608917 are due")
 		}
 	}
 	r.Rule("R11", "PATH.declared-gas-counts-from-zero + SHAPE.floor-not-rounded-down: (a) the transient declared-gas counter is reset by the SDK at Commit — but InitChain does not commit, and baseapp reuses InitChain's deliver state (with the gas the genesis transactions declared) for the first block: BeginBlock therefore sets the counter to the constant zero on every path before anything else reads it; (b) the minimum gas price is a decimal and transactions are admitted against the exact decimal, so the integer floor CalculateBaseFee applies to the base fee is its ceiling (Ceil before the integer conversion) — a floor rounded down lets the base fee settle below the configured minimum")
